@@ -410,8 +410,6 @@ async def dict(  # noqa: F811
     This is equivalent to ``{key: value async for key, value in iterable}``
     if no keywords are provided.
     """
-    if not iterable:
-        return {**kwargs}
     async with ScopedIter(iterable) as item_iter:
         base_dict: Dict[Any, T] = {key: value async for key, value in item_iter}
     if kwargs:
